@@ -37,6 +37,7 @@ class Ctx:
         self.pos = 0
         self.pc = []
         self.assumptions = []
+        self.excluded = []
         self.vars = {}  # name -> z3 const
         self.queries = 0
         self.solver_time = 0.0
@@ -64,8 +65,15 @@ class Ctx:
         return SymBool(v)
 
     def assume(self, cond):
+        """Assume a condition.  Before the first decision it is a global precondition; later it
+        restricts the current path only and the region it removes is recorded as assumed away
+        (for the coverage query)."""
         cond = _zb(cond)
-        self.assumptions.append(cond)
+        if self.pc:
+            self.excluded.append(z3.And(*self.pc, z3.Not(cond)))
+            self.pc.append(cond)
+        else:
+            self.assumptions.append(cond)
         self.solver.add(cond)
 
     # -- solver ----------------------------------------------------------
@@ -492,6 +500,7 @@ def explore(fn, max_paths=4000, timeout_ms=30000, max_cex=3, wall_s=600, coverag
             base_assumptions = list(ctx.assumptions)
         if coverage:
             pcs.append(z3.And(*ctx.pc) if ctx.pc else z3.BoolVal(True))
+            pcs.extend(ctx.excluded)
         if obs:
             res.reached += 1
             for ob in obs:
